@@ -1,14 +1,20 @@
 ------------------------ MODULE ReceiverShift_Trace ------------------------
 (* (V) for X02: validates what the real CMAF-ingest receiver stored for the uploads of harness/drive/x02
    against the oracle ReceiverShiftOps.  Monitor style: every line is consumed, every clause is decided here.
+   Clauses: X02.accept, X02.init.timescale, X02.store.one, X02.store.readable, X02.name.keep, X02.grid, X02.number,
+   X02.time.keep, X02.time.shift, X02.mfhd, X02.chunk.count, X02.chunk.tfdt, X02.dur.scaled, X02.payload,
+   X02.hook.matches, X02.tune.when, X02.shift.duration, X02.shift.time, X02.shift.seq, X02.mpd.written, X02.mpd.ast,
+   X02.mpd.tracks, X02.mpd.template, X02.mpd.timescale, X02.mpd.duration, X02.mpd.number, X02.listed
+   (X02.machinery.*: the scenario itself is malformed - a machinery error, never a verdict).
    Events (one per line; numbers relative to the scenario bases, see ReceiverShiftOps):
      hdr  {id, cls, Tm, D, c, far, startNr, creation, tracks[{name,kind,master,tsIn,tsOut,stored,Uin,Uout,V,S,gsOut,ext}]}
           c = NB - startNr - G (Big if far): outgoing "at start" number nb corresponds to grid-relative number nb + c
      init {track, status, resend}
      up   {track, k, status, nin, q, rem, dur, frs[{q,rem,sum,ns}],           the driver's reading of the upload
+           tsIn, nfr, defdur, wide, rescaled, wideOut, durWide, fracDur,     input class (classification of findings only)
            hook{have, ng, nb, nin, q, rem, dur, D, Tm, ssd, ts},             `process` hook of the channel goroutine
-           file{found, nchanged, ownDir, readable, ng, nb,                   the file that appeared / changed
-                frs[{mng, mnb, q, rem, sum, ns, nsIn, same, pairs[{di,do,n}]}]}}
+           file{found, nchanged, ownDir, readable, verbatim, ng, nb,         the file that appeared / changed, read back
+                frs[{mng, mnb, q, rem, sum, ns, nsIn, same, traw, pairs[{di,do,n}]}]}}
      mpd  {astOK, ast0, astc, nperiods, reps[], as[{ct, reps[], hasST, ts, dur, sn, pto, media, init, timeline}]}
      tl   {as[{track, ts, segs[{ng, nb, q, rem, d}]}]}                      manifest_timeline_nr.mpd
      end  {tuned, mpd}                                                                                  *)
@@ -78,8 +84,8 @@ Up ==
                THEN Clause("X02.name.keep", Small(f.nb) /\ f.nb = e.nin, <<"nb", f.nb, "nin", e.nin>>)
                ELSE IF ~StartTimeZero(sc.creation) THEN TRUE
                ELSE IF t.master
-               THEN Clause("X02.grid", Small(f.ng) /\ Small(got[1]) /\ GridEither(f.ng, sc.startNr, got), <<"ng", f.ng, "startNr", sc.startNr, "t", got>>)
-               ELSE Clause("X02.number", Small(f.ng) /\ Small(got[1]) /\ NumberEither(f.ng, sc.startNr, got, S), <<"ng", f.ng, "startNr", sc.startNr, "t", got>>)
+               THEN Clause("X02.grid", Small(f.ng) /\ Small(got[1]) /\ GridEither(f.ng, sc.startNr, got), <<"ng", f.ng, "startNr", sc.startNr, "t", got, "mode", st.mode>>)
+               ELSE Clause("X02.number", Small(f.ng) /\ Small(got[1]) /\ NumberEither(f.ng, sc.startNr, got, S), <<"ng", f.ng, "startNr", sc.startNr, "t", got, "mode", st.mode>>)
             \* ---- stored time of the first fragment
             /\ Clause("X02.machinery.base", Small(e.q), <<e.track, e.k>>)
             /\ Clause(IF keep THEN "X02.time.keep" ELSE "X02.time.shift", Small(got[1]) /\ TimeOK(exp, got, exact, tol, S),
@@ -114,7 +120,7 @@ Up ==
                LET as == AsOf(e.track) IN
                IF as = {} THEN TRUE ELSE
                LET a == CHOOSE a \in as : TRUE IN
-               IF ~(a.hasST /\ Small(a.dur) /\ a.dur * t.Uout = S /\ Small(a.sn) /\ Small(a.pto) /\ Small(f.ng) /\ Small(got[1])) THEN TRUE ELSE
+               IF ~(a.hasST /\ Small(a.dur) /\ MpdDurExact(a.dur, t.Uout, S) /\ Small(a.sn) /\ Small(a.pto) /\ Small(f.ng) /\ Small(got[1])) THEN TRUE ELSE
                Clause("X02.mpd.number",
                       IF t.master THEN MpdExact(f.ng, got, a.sn, a.pto, t.Uout, S) ELSE MpdNear(f.ng, got, a.sn, a.pto, t.Uout, S),
                       <<"n", f.ng, "startNumber", a.sn, "pto", a.pto, "t", got, "mode", st.mode, "startNr", sc.startNr>>)
